@@ -132,7 +132,8 @@ protected:
 
     /**
      * Determine if this is an xsl:element that creates no element, because
-     * its name is illegal.  Its attribute sets are not used then.
+     * its name is illegal, or an xsl:copy of a node that is not an element.
+     * The attribute sets are not used then.
      *
      * @param executionContext  context to execute this element
      * @returns true if no element was created
